@@ -23,7 +23,11 @@ from . import common, meshes
 from .common import INT_FILL, enc_floats, enc_ints
 
 RULES = [("gaussian", o) for o in range(1, 11)] + [("triangular", o) for o in (1, 4, 8, 10, 12)]
-DIMCODE = {"n_face": 0, "n_node": 1, "n_edge": 2, "time": 3, "lev": 4, "ens": 5, "cells": 6, "nv": 7}
+DIMCODE = {"n_face": 0, "n_node": 1, "n_edge": 2, "time": 3, "lev": 4, "ens": 5, "cells": 6, "nv": 7,
+           "dim_0": 8, "dim_1": 9, "dim_2": 10, "dim_3": 11, "nCells": 12, "nVertices": 13, "nEdges": 14, "x": 15}
+# names a last dimension can carry: the three grid names, xarray's default (no dims given) and un-renamed source names
+ELEM_NAMES = ["n_face", "n_node", "n_edge", "default", "nCells", "nVertices", "nEdges", "x"]
+LENGTH_KINDS = ["n_face", "n_node", "n_edge", "other"]
 NAMES = [None, "v", "psi", "surface pressure"]
 DTYPES = ["float64", "float32", "int64", "int32", "bool"]
 UNKNOWN_DIM = 60
@@ -119,18 +123,21 @@ def make_values(rng, size, dtype, ones=False):
     return vals
 
 
-def make_call(rng, sizes, elem_dim, rule_order, ones=False, max_lead=3, lead_cap=3, via="dataarray", rank=None):
+def make_call(rng, sizes, elem_dim, rule_order, ones=False, max_lead=3, lead_cap=3, via="dataarray", rank=None, length=None):
+    """`elem_dim` names the last dimension ("default" = no dims given: xarray's dim_0, dim_1, …); `length` overrides its
+    length (default: the grid count of that name)"""
     if rank is None:
         rank = rng.choice([0, 0, 1, 1, 2, 3][: 3 + max_lead])
     lead = [rng.randint(1, lead_cap) for _ in range(rank)]
     lead_names = rng.sample(["time", "lev", "ens"], rank)
     dtype = rng.choice(DTYPES + ["float64", "float64"])
-    n = sizes[elem_dim]
+    n = sizes[elem_dim] if length is None else length
     shape = lead + [n]
+    dims = [f"dim_{i}" for i in range(rank + 1)] if elem_dim == "default" else lead_names + [elem_dim]
     return dict(
         rule=rule_order[0],
         order=rule_order[1],
-        dims=lead_names + [elem_dim],
+        dims=dims,
         shape=shape,
         dtype=dtype,
         name=rng.choice(NAMES if via == "dataarray" else NAMES[1:]),
@@ -196,7 +203,14 @@ def run_call(ctx, ux, g, sizes, ref, call, inp):
         areas = np.zeros(sizes["n_face"])  # the rejection clauses do not read the areas
     ctx.hit(f"via={via}")
     if via == "dataarray":
-        subject = ux.UxDataArray(arr, dims=call["dims"], uxgrid=g, name=call["name"])
+        if call["dims"] == [f"dim_{i}" for i in range(arr.ndim)]:
+            # wrapped without dimension names: UxDataArray(values, uxgrid=grid)
+            subject = ux.UxDataArray(arr, uxgrid=g, name=call["name"])
+            if list(subject.dims) != call["dims"]:
+                subject = ux.UxDataArray(arr, dims=call["dims"], uxgrid=g, name=call["name"])
+            ctx.hit("constructed-without-dims")
+        else:
+            subject = ux.UxDataArray(arr, dims=call["dims"], uxgrid=g, name=call["name"])
     else:
         # the documented user path `uxds["psi"].integrate()` / the legacy `uxds.integrate()`
         ds = ux.UxDataset({call["name"]: (call["dims"], arr)}, uxgrid=g)
@@ -234,14 +248,15 @@ def run_call(ctx, ux, g, sizes, ref, call, inp):
         "C06.judge", sizes["n_face"], sizes["n_node"], sizes["n_edge"], GID, enc_floats(areas),
         enc_arr(call["dims"], call["shape"], as_float, call["name"], GID), obs,
     ).split()
-    # spec k c… model X asis Y dsasis Z self s vals n (num den)…
+    # spec k c… model X asis Y dsasis Z lenfb W self s vals n (num den)…
     k = int(ans[1])
     bad = ans[2 : 2 + k]
     rest = ans[2 + k :]
-    model, asis, dsasis, self_bad = rest[1], rest[3], rest[5], int(rest[7])
-    nv = int(rest[9])
-    exact = [Fraction(int(rest[10 + 2 * i]), int(rest[11 + 2 * i])) for i in range(nv)]
-    model_out = dict(outcome=model, asis_model=asis, legacy_dataset_model=dsasis, exact_values=[float(x) for x in exact[:64]])
+    model, asis, dsasis, lenfb, self_bad = rest[1], rest[3], rest[5], rest[7], int(rest[9])
+    nv = int(rest[11])
+    exact = [Fraction(int(rest[12 + 2 * i]), int(rest[13 + 2 * i])) for i in range(nv)]
+    model_out = dict(outcome=model, asis_model=asis, legacy_dataset_model=dsasis, length_fallback_variant_model=lenfb,
+                     exact_values=[float(x) for x in exact[:64]])
     if via == "dataset-integrate" and len(call["shape"]) == 1 and (dsasis == "ok") != (res is not None):
         # the model of the known-finding method itself (1-D fragment) must still describe the code
         ctx.mismatch("C06/legacy-dataset-decision-table", inp, observed, model_out)
@@ -274,6 +289,13 @@ def run_call(ctx, ux, g, sizes, ref, call, inp):
             if c == "dispatch_rejects":
                 sig = f"C06/dispatch_rejects/{elem}/{coin}"
                 what = (f"{elem}-dimension data was integrated instead of rejected on a grid with {coin} "
+                        f"(n_face={sizes['n_face']}, n_node={sizes['n_node']}, n_edge={sizes['n_edge']})")
+            elif c == "unnamed_sized_rejects":
+                n = call["shape"][-1]
+                kinds = "=".join(k for k in ("n_face", "n_node", "n_edge") if sizes[k] == n)
+                sig = f"C06/unnamed_sized_rejects/length={kinds}"  # one defect whatever the (non-grid) name is
+                what = (f"data of length {n} (= {kinds}) under the non-grid dimension name {elem!r} was integrated as face data instead of "
+                        f"being rejected: the element kind was inferred from the length on a grid with {coin} "
                         f"(n_face={sizes['n_face']}, n_node={sizes['n_node']}, n_edge={sizes['n_edge']})")
             elif c == "face_data_rejected":
                 sig = f"C06/face_data_rejected/{type(err).__name__}"
@@ -332,6 +354,9 @@ def judge_history(ctx, case, tag="gen"):
         ctx.hit(f"rank={len(call['shape'])}")
         ctx.hit(f"dtype={call['dtype']}")
         ctx.hit(f"elem={elem}")
+        n_last = call["shape"][-1]
+        kinds = "=".join(k for k in ("n_face", "n_node", "n_edge") if sizes[k] == n_last) or "other"
+        ctx.hit(f"name×length:{'dim_k' if elem.startswith('dim_') else elem}×{kinds}")
         if len(set(call["data"])) == 1 and call["data"][0] == 1 and elem == "n_face":
             ctx.hit("constant-one")
         n_before = len(ctx.failures)
@@ -377,6 +402,15 @@ def history_for(ctx, md, sizes, pool, n_face_calls, big=False):
         calls.append(c)
         c = make_call(rng, dict(sizes, n_face=bogus), "n_face", next_rule(ctx, pool), max_lead=1)
         calls.append(c)
+    if not big:
+        # NAME × LENGTH product of the last dimension: the decision must follow the name, never a coincidence of lengths
+        lens = dict(sizes, other=bogus)
+        combos = [(nm, lk) for nm in ELEM_NAMES for lk in LENGTH_KINDS]
+        rng.shuffle(combos)
+        if coincidence(sizes) == "distinct":
+            combos = combos[: ctx.n(10, len(combos))]
+        for nm, lk in combos:
+            calls.append(make_call(rng, sizes, nm, next_rule(ctx, pool), max_lead=1, length=lens[lk]))
     # the documented path uxds[name].integrate() and the legacy UxDataset.integrate()
     calls.append(make_call(rng, sizes, "n_face", next_rule(ctx, pool), max_lead=ml, lead_cap=cap, via="dataset-getitem"))
     calls.append(make_call(rng, sizes, "n_face", next_rule(ctx, pool), via="dataset-integrate", rank=0))
